@@ -4,6 +4,8 @@ import sys; sys.path.insert(0,'/verif')
 from vlib.runner import run_unit
 twin = '--twin' in sys.argv
 r=run_unit(sys.argv[1], twin=twin)
+for k,v in r.stubbed.items(): print('STUBBED', k, '|', v[:400])
+for u in r.soft_undecided: print('SOFT-UNDECIDED:', u[:400])
 for u in r.undecided: print("UNDECIDED:", u[:700]); print()
 for f in r.failures:
     print('FAIL', f['obligation'], '|', f['message'], '|', f['at']['file'], f['at']['line'], f['at']['text'][:110])
